@@ -181,6 +181,24 @@ _UNSCRIPTED_RANDOM = ['betavariate', 'expovariate', 'gammavariate', 'lognormvari
                       'binomialvariate']
 
 
+def _mk_reseed(gen, name, orig):
+    """random.seed / random.setstate / np.random.seed / np.random.set_state while an execution is explored: the genuine
+    generator is not touched (the explorer owns the draws); the run is told that, from here on, the draws of this
+    generator are a fixed function of the argument - they are no longer random (Run.reseed)."""
+    import sys
+
+    def f(*a, **k):
+        r = _ACTIVE
+        if r is None:
+            return orig(*a, **k)
+        fr = sys._getframe(1)
+        site = f"{fr.f_code.co_filename.split('/ixai/')[-1]}:{fr.f_lineno}"
+        r.reseed(gen, f"{name}({', '.join(map(repr, a))}) at {site}")
+        return None
+    f.__name__ = name
+    return f
+
+
 def _mk_unscripted(modname, name, orig):
     def f(*a, **k):
         global UNSCRIPTED
@@ -358,6 +376,13 @@ def install():
         setattr(_random, name, f)
     for name, f in _mk_numpy().items():
         setattr(_np.random, name, f)
+    ORIG['random.getstate'] = _random.getstate
+    for name in ('seed', 'setstate'):
+        ORIG['random.' + name] = getattr(_random, name)
+        setattr(_random, name, _mk_reseed('random.', 'random.' + name, getattr(_random, name)))
+    for name in ('seed', 'set_state'):
+        ORIG['np.' + name] = getattr(_np.random, name)
+        setattr(_np.random, name, _mk_reseed('np.random.', 'np.random.' + name, getattr(_np.random, name)))
     for name in _UNSCRIPTED_RANDOM:
         if hasattr(_random, name):
             setattr(_random, name, _mk_unscripted('random', name, getattr(_random, name)))
